@@ -370,3 +370,224 @@ func (g *gen) randomBytes() *vcase {
 	}
 	return c
 }
+
+// heapCase: aliasing of compound objects. A few static slots ("registers") hold collections; the
+// program stores one into another (APPEND / SETITEM / PACK* / VALUES / CONVERT), mutates through
+// one reference and finally dumps every register: struct clone-on-store, shallow copies and shared
+// references become observable. The generator tracks kind and length of every register so that
+// most programs run to the end (1 in 12 operations ignores the tracking).
+func (g *gen) heapCase() *vcase {
+	a := newAsm()
+	nr := g.r.Range(2, 5)
+	a.raw(byte(opcode.INITSSLOT), byte(nr))
+	ld := func(i int) { a.op(opcode.Opcode(int(opcode.LDSFLD0) + i)) }
+	st := func(i int) { a.op(opcode.Opcode(int(opcode.STSFLD0) + i)) }
+	kind := make([]byte, nr) // 'A' array, 'S' struct, 'M' map, '?' anything
+	ln := make([]int, nr)    // -1 unknown
+	for i := 0; i < nr; i++ {
+		switch g.r.Intn(5) {
+		case 0:
+			a.op(opcode.NEWARRAY0)
+			kind[i], ln[i] = 'A', 0
+		case 1, 2:
+			a.op(opcode.NEWSTRUCT0)
+			kind[i], ln[i] = 'S', 0
+		case 3:
+			a.op(opcode.NEWMAP)
+			kind[i], ln[i] = 'M', 0
+		default:
+			n := g.r.Intn(3)
+			a.pushInt(big.NewInt(int64(n)))
+			if g.r.Bool() {
+				a.op(opcode.NEWARRAY)
+				kind[i] = 'A'
+			} else {
+				a.op(opcode.NEWSTRUCT)
+				kind[i] = 'S'
+			}
+			ln[i] = n
+		}
+		st(i)
+	}
+	// pick a register of one of the kinds (or any, when sloppy)
+	pick := func(kinds string) int {
+		sloppy := g.r.Intn(12) == 0
+		for try := 0; try < 12; try++ {
+			x := g.r.Intn(nr)
+			if sloppy {
+				return x
+			}
+			for k := 0; k < len(kinds); k++ {
+				if kind[x] == kinds[k] {
+					return x
+				}
+			}
+		}
+		return -1
+	}
+	idx := func(x int) { // an index into sequence register x
+		n := ln[x]
+		switch {
+		case g.r.Intn(10) == 0:
+			a.pushInt(big.NewInt(int64(n + g.r.Intn(2)))) // out of range by 0/1
+		case n > 0:
+			a.pushInt(big.NewInt(int64(g.r.Intn(n))))
+		default:
+			a.op(opcode.PUSH0)
+		}
+	}
+	key := func() { g.emitPrim(a, g.keyPrim()) }
+	n := g.r.Range(3, 16)
+	for i := 0; i < n; i++ {
+		switch g.r.Intn(16) {
+		case 0, 1, 2: // x.append(y) / x.append(int)
+			x := pick("AS")
+			if x < 0 {
+				continue
+			}
+			ld(x)
+			if g.r.Intn(4) == 0 {
+				a.pushInt(big.NewInt(int64(g.r.Intn(5))))
+			} else {
+				ld(g.r.Intn(nr))
+			}
+			a.op(opcode.APPEND)
+			if ln[x] >= 0 {
+				ln[x]++
+			}
+		case 3, 4, 5: // x[k] = y
+			x := pick("ASM")
+			if x < 0 || (kind[x] != 'M' && ln[x] == 0 && g.r.Intn(8) != 0) {
+				continue
+			}
+			ld(x)
+			if kind[x] == 'M' {
+				key()
+				ln[x] = -1
+			} else {
+				idx(x)
+			}
+			if g.r.Intn(4) == 0 {
+				a.pushInt(big.NewInt(int64(g.r.Intn(5))))
+			} else {
+				ld(g.r.Intn(nr))
+			}
+			a.op(opcode.SETITEM)
+		case 6: // z = values(x)
+			x, z := pick("ASM"), g.r.Intn(nr)
+			if x < 0 {
+				continue
+			}
+			ld(x)
+			a.op(opcode.VALUES)
+			st(z)
+			kind[z], ln[z] = 'A', ln[x]
+		case 7: // z = convert(x)
+			x, z := pick("AS"), g.r.Intn(nr)
+			if x < 0 {
+				continue
+			}
+			ld(x)
+			if g.r.Bool() {
+				a.convert(tArray)
+				kind[z], ln[z] = 'A', ln[x]
+			} else {
+				a.convert(tStruct)
+				kind[z], ln[z] = 'S', ln[x]
+			}
+			st(z)
+		case 8: // z = x[k]
+			x, z := pick("ASM"), g.r.Intn(nr)
+			if x < 0 || (kind[x] != 'M' && ln[x] == 0) || kind[x] == 'M' {
+				continue
+			}
+			ld(x)
+			idx(x)
+			a.op(opcode.PICKITEM)
+			st(z)
+			kind[z], ln[z] = '?', -1
+		case 9: // z = pack(x, y)
+			z := g.r.Intn(nr)
+			ld(g.r.Intn(nr))
+			ld(g.r.Intn(nr))
+			if g.r.Bool() {
+				a.op(opcode.PUSH2, opcode.PACK)
+				kind[z] = 'A'
+			} else {
+				a.op(opcode.PUSH2, opcode.PACKSTRUCT)
+				kind[z] = 'S'
+			}
+			ln[z] = 2
+			st(z)
+		case 10: // z = packmap
+			z := g.r.Intn(nr)
+			ld(g.r.Intn(nr))
+			key()
+			ld(g.r.Intn(nr))
+			key()
+			a.op(opcode.PUSH2, opcode.PACKMAP)
+			st(z)
+			kind[z], ln[z] = 'M', -1
+		case 11: // remove
+			x := pick("ASM")
+			if x < 0 || (kind[x] != 'M' && ln[x] <= 0) {
+				continue
+			}
+			ld(x)
+			if kind[x] == 'M' {
+				key()
+			} else {
+				idx(x)
+				ln[x]--
+			}
+			a.op(opcode.REMOVE)
+		case 12:
+			x := pick("AS")
+			if x < 0 {
+				continue
+			}
+			ld(x)
+			if g.r.Bool() {
+				a.op(opcode.REVERSEITEMS)
+			} else {
+				a.op(opcode.CLEARITEMS)
+				ln[x] = 0
+			}
+		case 13: // z = popitem(x)
+			x, z := pick("AS"), g.r.Intn(nr)
+			if x < 0 || ln[x] <= 0 {
+				continue
+			}
+			ld(x)
+			a.op(opcode.POPITEM)
+			ln[x]--
+			st(z)
+			kind[z], ln[z] = '?', -1
+		case 14: // z = equal(x, y)
+			z := g.r.Intn(nr)
+			ld(g.r.Intn(nr))
+			ld(g.r.Intn(nr))
+			a.op(opcode.EQUAL)
+			st(z)
+			kind[z], ln[z] = '?', -1
+		default: // z = keys(x) / unpack + pack round trip
+			z := g.r.Intn(nr)
+			if x := pick("M"); x >= 0 && g.r.Bool() {
+				ld(x)
+				a.op(opcode.KEYS)
+				st(z)
+				kind[z], ln[z] = 'A', -1
+			} else if x := pick("AS"); x >= 0 {
+				ld(x)
+				a.op(opcode.UNPACK, opcode.PACK)
+				st(z)
+				kind[z], ln[z] = 'A', ln[x]
+			}
+		}
+	}
+	for i := 0; i < nr; i++ {
+		ld(i)
+	}
+	s, _ := a.bytes()
+	return &vcase{script: s, gas: genGas, priced: true, family: "heap"}
+}
